@@ -28,7 +28,7 @@ use std::io;
 use std::net::{Ipv4Addr, Ipv6Addr};
 
 pub const RULE: &str = "roundtrip: random sequences of 1..6 PDUs over all 11 PDU types (versions 0-2 and 3-255, any \
-session/serial/timing/flags, v4/v6 prefixes with any (len,max_len,host bits), key info 0..4 KiB, 0..300 providers, error \
+session/serial/timing/flags, v4/v6 prefixes with any (len,max_len,host bits), key info 0..4 KiB, 0..300 providers (and, outside the truncation sweep, 16370..16380 = up to the maximum a PDU can carry), error \
 PDUs with embedded PDU/text 0..2 KiB), each PDU built by the library constructor, accessors compared with the inputs, \
 written, length field (big-endian at octet 4) compared with bytes written, read back through every reader entry point \
 (read, try_read, Header::read + read_payload/skip_payload dispatch, Payload::read, SerialQueryPayload::read) from a \
@@ -728,7 +728,17 @@ fn blob_s(max: u32, big: u32) -> BoxedStrategy<Blob> {
 }
 
 fn provs_s(max: u16, big: u32) -> BoxedStrategy<Provs> {
-    let count = prop_oneof![8 => 0u16..=3, 6 => 0u16..=24.min(max), big => 0u16..=max, big => (max.saturating_sub(1))..=max];
+    // `big >= 2` (round trip and payload sub-checks, not the quadratic truncation
+    // sweep) also reaches the largest provider lists a PDU can carry
+    // (ProviderAsns::MAX_COUNT = 16380, a 65532-octet PDU).
+    let near_max = if big >= 2 { 1 } else { 0 };
+    let count = prop_oneof![
+        8 => 0u16..=3,
+        6 => 0u16..=24.min(max),
+        big => 0u16..=max,
+        big => (max.saturating_sub(1))..=max,
+        near_max => 16370u16..=16380,
+    ];
     (count, dense_u32(), prop_oneof![Just(1u32), Just(0), dense_u32()]).prop_map(|(count, base, step)| Provs { count, base, step }).boxed()
 }
 
